@@ -514,6 +514,7 @@ def run(tier):
         raise AnalysisBroken("%s: only %d exported objects found" % (entry, len(W)))
     glo = glossary_bounds(unit)
     inputs = re.findall(r"@Input\s+\w+\s+(\w+)\s*;", txt)
+    outputs = re.findall(r"@Output\s+\w+\s+(\w+)\s*;", txt)       # its bounds are metadata like those of the inputs
     gl = dict(re.findall(r"(\w+)\.setGlossaryName\(\"(\w+)\"\)", txt))
     bnd, pbnd = {}, {}
     for m in re.finditer(r"@(Physical)?Bounds\s+(\w+)\s+in\s+[\[\]]\s*([-+.\deE*]+)\s*:\s*([-+.\deE*]+)\s*[\[\]]\s*;", txt):
@@ -534,7 +535,7 @@ def run(tier):
             rep.fail("VALUE@%s_%s" % (entry, sym), "%s: %s_%s = %s; the declarations give %s (%s)" % (rel(got[2]), entry, sym, got[1], expect, what))
     wantmp("nargs", float(len(inputs)), "number of @Input")
     wantmp("args", [gl.get(v, v) for v in inputs], "external names of the inputs in declaration order")
-    for v in inputs:
+    for v in inputs + outputs:
         x = gl.get(v, v)
         b = bnd.get(v, (None, None))
         pb = pbnd.get(v)
